@@ -275,7 +275,6 @@ theorem cryptYescryptCore_good {D : Digests} {p s H : Bytes} (hs : checkBadSaltC
   have hsafe := passwdSafe_of_checkBad hs
   unfold cryptYescryptCore at h
   split at h; · cases h
-  split at h; · cases h
   cases h
   rename_i out hout
   have := yescryptR_good hsafe hout
@@ -286,7 +285,6 @@ theorem cryptYescryptCore_good {D : Digests} {p s H : Bytes} (hs : checkBadSaltC
 theorem cryptScrypt_good {D : Digests} {p s H : Bytes} (hs : checkBadSaltChars s = false)
     (h : cryptScrypt D p s = .ok H) : goodHash H := by
   unfold cryptScrypt at h
-  split at h; · cases h
   split at h; · cases h
   exact cryptYescryptCore_good hs h
 
